@@ -288,6 +288,9 @@ pub enum SOp {
     /// pure VLE at T (or at p_sat(tf*Tc) if `at_p`) guided by the most recent result of the
     /// session: the continuation pattern of the phase-diagram drivers, in either direction
     PureChain { tf: f64, at_p: bool },
+    /// pure VLE at T guided by the stand-alone result at the same T: a converged result used
+    /// as its own guess must be reproduced (a result that only looks converged is not)
+    PureTSelf { tf: f64 },
     /// pure VLE at T with an un-converged two-phase guess built by PhaseEquilibrium::new_npt at
     /// the requested temperature and a guessed pressure pf * p_sat
     PureTNpt { tf: f64, pf: f64 },
@@ -584,6 +587,17 @@ fn session_pure_op(ctx: &mut Ctx, sc: &Session, i: usize, op: &SOp, pool_v: &mut
             let op2 = if *at_p { SOp::PureP { tf: *tf, guess: last } } else { SOp::PureT { tf: *tf, guess: last } };
             ctx.out.count("probe.pure_continuation_step", 1);
             session_pure_op(ctx, sc, i, &op2, pool_v, opts);
+        }
+        SOp::PureTSelf { tf } => {
+            let t = tf * sys.tc;
+            let Ok(own) = verif::suspended(|| Vle::pure(eos, t * KELVIN, None, SolverOptions::default())) else { return };
+            let r = num(&own);
+            ctx.out.count("op.pure_t_own_result_as_guess", 1);
+            if let Ok(v) = Vle::pure(eos, t * KELVIN, Some(&own), opts) {
+                let n = num(&v);
+                digest_num(&mut ctx.dg, &n);
+                judge(ctx, "pure-mismatch", "pure_t", format!("op {i} pure(T={t}) of {} guided by the stand-alone result at the same temperature", sys.name), &n, &r, TOL_PURE, 0.0, "pure_t_self");
+            }
         }
         SOp::PureTNpt { tf, pf } => {
             let t = tf * sys.tc;
@@ -1371,9 +1385,10 @@ fn gen_session(rng: &mut Rng, tier: Tier, no_faults: bool) -> Session {
                 }
             });
         } else {
-            let r = rng.below(14);
+            let r = rng.below(16);
             let guess = if rng.chance(0.8) { Some(rng.below(64)) } else { None };
             ops.push(match r {
+                14..=15 => SOp::PureTSelf { tf: rng.uniform(0.45, 0.98) },
                 12 => SOp::PureTNpt { tf: rng.uniform(0.5, 0.95), pf: q9((rng.uniform(-1.0, 1.0) * 1.05f64).exp()) },
                 13 => SOp::PurePNpt { tf: rng.uniform(0.5, 0.95), dt: rng.uniform(-12.0, 12.0) },
                 0..=4 => SOp::PureT { tf: rng.uniform(0.45, 0.98), guess },
